@@ -67,10 +67,39 @@ def after_result_cases(tier, seed):
                 i += 1
 
 
+def page_fetch_and_late_put_cases(tier, seed):
+    """(a) checkpoint responses are paginated (one operation per page) and the fetch of a following page fails: whatever the SDK does
+    next, it must not start an operation twice because it never saw the page that showed it started; (b) a straggler's enqueue is
+    held (where the SDK allows it to be held) until the execution-level result record has been applied."""
+    errs = [{"kind": "client", "status": 429, "code": "TooManyRequestsException", "message": "slow"},
+            {"kind": "client", "status": 500, "code": "ServiceException", "message": "boom"},
+            {"kind": "client", "status": 400, "code": "ValidationException", "message": "bad"}]
+    shapes = [[{"k": "child", "body": [{"k": "wait", "s": 1}, {"k": "step", "val": 1}]}, {"k": "step", "val": 2}],
+              [{"k": "child", "body": [{"k": "cb"}]}, {"k": "step", "val": 2}],
+              [{"k": "par", "branches": [{"body": [{"k": "invoke", "fn": "f", "payload": 1, "cfg": {"timeout": 9}}]}, {"body": [{"k": "wait", "s": 2}]}], "cfg": {"preset": "all_completed"}}]]
+    i = 0
+    for body in shapes:
+        for nth in range(1, 5 if tier == "quick" else 9):
+            yield {"label": "page-fetch-of-a-checkpoint-response-fails", "prog": {"body": body}, "prog_seed": 27950 + i, "pattern": {"p": "plain"}, "max_inv": 16, "max_raises": 4,
+                   "pages": {"resp_page": 1}, "faults": [{"match": {"op": "get_state", "n_inv": None}, "err": errs[i % 3], "when": "before", "nth": nth}], "opts": {"hang_s": 3.0}}
+            i += 1
+    for kind in ("par", "map"):
+        for nxt in ({"k": "step", "val": "late"}, {"k": "wait", "s": 1}):
+            brs = [{"body": [{"k": "step", "val": "fast"}]}, {"body": [{"k": "step", "val": "s0"}, dict(nxt), {"k": "step", "val": "tail"}]}]
+            node = {"k": "par", "branches": brs, "cfg": {"min_ok": 1}} if kind == "par" else {"k": "map", "items": [0, 1], "per_item": brs, "body": [], "cfg": {"min_ok": 1}}
+            typ = "STEP" if nxt["k"] == "step" else "WAIT"
+            yield {"label": "straggler-enqueue-held-until-execution-record|%s|%s" % (kind, typ), "prog": {"body": [node], "ret": {"big": 6 * 1024 * 1024 + 100}},
+                   "prog_seed": 27980 + i, "pattern": {"p": "plain"}, "max_inv": 8,
+                   "holds": [{"match": {"kind": "gate", "name_re": r"^put:%s:START:0/b1/1" % typ}, "until": {"applied": {"Type": "EXECUTION", "Action": "SUCCEED"}}, "delay_ms": 2}],
+                   "opts": {"linger_s": 0.5, "idle_s": 0.8, "hang_s": 3.0, "targeted": [{"kind": "queue_put", "match": {"action": "START", "type": typ}}]}}
+            i += 1
+
+
 def explicit_all(tier, seed):
     yield from explicit(tier, seed)
     yield from small_batch_cases(tier, seed)
     yield from after_result_cases(tier, seed)
+    yield from page_fetch_and_late_put_cases(tier, seed)
 
 
 SPEC = Spec(
